@@ -1,25 +1,39 @@
 #!/bin/sh
-# Evaluate every natural mutant (reverse patch of a fix) and every seeded change against all 20 quick checks.
-# usage: selftest/evaluate_all.sh <output directory>   (run from a stable snapshot, e.g. with `vp run`)
+# Evaluate every natural mutant (reverse patch of a fix), every seeded change and every neutral refactoring against all
+# 20 quick checks.
+# usage: selftest/evaluate_all.sh <output directory> [part ...]   parts: unfix r1 r2 r3 neutral (default: all)
+# (run from a stable snapshot, e.g. with `vp run`; the parts can run as separate jobs into the same directory)
 HERE="$(cd "$(dirname "$0")/.." && pwd)"
 OUT="${1:-/tmp/final_eval}"
+[ $# -gt 0 ] && shift
+PARTS="${*:-unfix r1 r2 r3 neutral}"
 mkdir -p "$OUT/unfix" "$OUT/seeded" "$OUT/neutral"
+has() { case " $PARTS " in *" $1 "*) return 0;; esac; return 1; }
+if has unfix; then
 for f in "$HERE"/selftest/patches/unfix/*.diff; do
   b=$(basename "$f" .diff)
   d="$OUT/unfix/$b"; mkdir -p "$d"; cp "$f" "$d/patch.diff"
   python3 "$HERE/tools/eval_mutant.py" "$d" --checks all > "$OUT/unfix/$b.json" 2>&1
   echo "unfix/$b done"
 done
-for d in "$HERE"/seeded/C* "$HERE"/seeded/R2-C* "$HERE"/seeded/R3-C*; do
-  [ -d "$d" ] || continue
-  b=$(basename "$d")
-  python3 "$HERE/tools/eval_mutant.py" "$d" --checks all > "$OUT/seeded/$b.json" 2>&1
-  echo "seeded/$b done"
-done
+fi
+seeded() {
+  for d in "$@"; do
+    [ -d "$d" ] || continue
+    b=$(basename "$d")
+    python3 "$HERE/tools/eval_mutant.py" "$d" --checks all > "$OUT/seeded/$b.json" 2>&1
+    echo "seeded/$b done"
+  done
+}
+has r1 && seeded "$HERE"/seeded/C*
+has r2 && seeded "$HERE"/seeded/R2-C*
+has r3 && seeded "$HERE"/seeded/R3-C*
+if has neutral; then
 for d in "$HERE"/selftest/neutral/N*; do
   [ -d "$d" ] || continue
   b=$(basename "$d")
   python3 "$HERE/tools/eval_mutant.py" "$d" --checks all > "$OUT/neutral/$b.json" 2>&1
   echo "neutral/$b done"
 done
-echo ALL DONE
+fi
+echo "DONE: $PARTS"
